@@ -113,6 +113,20 @@ def dispatch (a : Arch) : Arch × UInt32 × StepInfo :=
     opcodeText a.bus a.reg.pc (decode a.bus a.reg.pc (firstByte a)), decode a.bus a.reg.pc (firstByte a),
     taken (decode a.bus a.reg.pc (firstByte a)).instr a⟩)
 
+/- compiler-only replacement (`@[csimp]`, kernel-checked equal to the definition above): takes the owner of the
+   memory array apart first, so that the array is updated in place instead of being copied -/
+/-- everything the step reports that only reads the state, computed before `exec` takes the state over -/
+@[noinline] def preInfo (a : Arch) : Decoded × UInt32 × StepInfo × UInt16 :=
+  let d := decode a.bus a.reg.pc (firstByte a)
+  (d, instrCycles d a, ⟨d.page, d.instr = .unknown, opcodeText a.bus a.reg.pc d, d, taken d.instr a⟩, effLen d a.int)
+
+def dispatchFast (a : Arch) : Arch × UInt32 × StepInfo :=
+  match preInfo a with
+  | (d, cyc, info, len) => ({ exec d.instr len a with int := none }, cyc, info)
+
+@[csimp] theorem dispatch_eq_fast : @dispatch = @dispatchFast := by
+  funext a; rfl
+
 /-- an accepted interrupt ends the halt; execution resumes after the HALT -/
 def wake (a : Arch) : Arch := if a.halt then { a.setPC (a.reg.pc + 1) with halt := false } else a
 
@@ -130,6 +144,17 @@ def preDispatch (a : Arch) : Arch := takeInt (takeNmi (wake a))
 def stepArch (a : Arch) : Arch × UInt32 × Option StepInfo :=
   if a.halt && !a.wakes then (a, 4, none)
   else ((dispatch (preDispatch a)).1, (dispatch (preDispatch a)).2.1, some (dispatch (preDispatch a)).2.2)
+
+/- compiler-only replacement (`@[csimp]`, kernel-checked equal to the definition above): takes the owner of the
+   memory array apart first, so that the array is updated in place instead of being copied -/
+def stepArchFast (a : Arch) : Arch × UInt32 × Option StepInfo :=
+  if a.halt && !a.wakes then (a, 4, none)
+  else
+    let r := dispatch (preDispatch a)
+    (r.1, r.2.1, some r.2.2)
+
+@[csimp] theorem stepArch_eq_fast : @stepArch = @stepArchFast := by
+  funext a; rfl
 
 def updateDebug (d : Debug) : Option StepInfo → Debug
   | none => d
